@@ -210,9 +210,32 @@ func (g *gen) smallIndex() *N {
 	}
 }
 
+// nilableArg: an argument for an interface{} parameter: the literal nil, an int
+// expression, or a dynamic atom.
+func (g *gen) nilableArg() *N {
+	switch g.r.Intn(3) {
+	case 0:
+		return &N{K: "nil"}
+	case 1:
+		if g.cfg.Dyn {
+			if a := g.dynAtom(); a != nil {
+				return a
+			}
+		}
+	}
+	return g.Int()
+}
+
 func (g *gen) intCall() *N {
 	for {
-		switch g.r.Intn(8) {
+		switch g.r.Intn(10) {
+		case 8:
+			return nCall("An", g.nilableArg(), g.nilableArg())
+		case 9:
+			if !g.cfg.Objects {
+				continue
+			}
+			return nMeth(nID("O"), "Sel", g.cfg.NilSafe && g.r.Chance(1, 3), g.nilableArg(), g.nilableArg())
 		case 0, 1:
 			return nCall("F1", g.Int())
 		case 2:
@@ -304,6 +327,26 @@ func (g *gen) Bool() *N {
 			return nBin(op, g.Int(), g.Int())
 		case 4, 5:
 			op := g.r.Pick([]string{"and", "or", "&&", "||"})
+			if g.cfg.Failing && g.r.Chance(1, 4) {
+				// a left operand that can fail on data next to a literal right operand:
+				// the connective must still evaluate (and fail in) the left operand
+				var l *N
+				switch g.r.Intn(4) {
+				case 0:
+					l = nBin(g.r.Pick([]string{">", "==", "<="}), nIdx(nID("Xs"), nID("K")), g.lit())
+				case 1:
+					l = nBin("==", nBin(g.r.Pick([]string{"%", "/"}), g.intLeaf(), nID("Z")), g.lit())
+				case 2:
+					if g.cfg.Objects {
+						l = nBin("<", nProp(nProp(nID("O"), "Next", false), "V", false), g.lit())
+					} else {
+						l = nBin("!=", nIdx(nID("Ys"), g.smallIndex()), g.lit())
+					}
+				default:
+					l = nBin(">=", nIdx(nID("Ys"), g.smallIndex()), g.intLeaf())
+				}
+				return nBin(op, l, nBool(g.r.Chance(1, 2)))
+			}
 			return nBin(op, g.Bool(), g.Bool())
 		case 6:
 			return nUn(g.r.Pick([]string{"not", "!"}), g.Bool())
